@@ -18,7 +18,9 @@ RULE = ('a pool of K public calls (validate/is_valid/compact/format/getters/conv
         'initially fresh worker processes: rules call(i), mutate_last (deep in-place vandalism of the returned container), '
         'mutate_and_repeat, neighbour_call; invariant: outcome == pristine outcome; failing process traces are minimised by delta '
         'debugging with fresh-process replays; (2) thread trials in fresh processes: 2..16 threads start on a barrier with overlapping '
-        'call lists (concurrent first use of registries / country modules, switch interval 1e-6); non-trivial = sequences containing a '
+        'call lists (concurrent first use of registries / country modules, switch interval 1e-6); (0) in-process repetition: every '
+        'validate/is_valid/compact/format/getter call on corpus, edge and generator-completed numbers is made twice in a row and '
+        'validate once more at the end, outcomes must be equal; non-trivial = sequences containing a '
         'mutation followed by a call, thread trials where first uses raced; distinct by (worker seed, sequence index) and (trial)')
 ASSUME = ['thread schedules are not controlled by the harness (stress only); the history/aliasing part is a model-based search',
           'same PYTHONHASHSEED and frozen clock in every process', 'eu.vat.guess_country compared as a set']
@@ -211,12 +213,85 @@ def prop_threads(case, res):
     return r
 
 
-SUBS = {'hist': prop_hist, 'threads': prop_threads}
+def completed_mutants(name):
+    """Numbers of module `name` whose check characters are right by the module's own generator but which need not be valid:
+    every adjacent digit pair of one valid number takes all 100 values and the generator's check is put back (table of C05)."""
+    from vf.checks import c05
+    out = []
+    for t in c05.TABLE:
+        if t['mod'] != name:
+            continue
+        m = core.mod(name)
+        fn = getattr(m, t['fn'])
+        for v in [x for x in gen.pool(name, **t['vopts']) if not t['applies'] or t['applies'](x)][:1]:
+            for i in range(len(v) - 1):
+                if not (v[i].isdigit() and v[i + 1].isdigit()):
+                    continue
+                for ab in range(100):
+                    w = v[:i] + '%02d' % ab + v[i + 2:]
+                    g = core.out(fn, t['arg'](w))
+                    if g[0] == 'ok' and isinstance(g[1], str) and g[1]:
+                        out.append(c05.put(w, t['sl'], g[1][:1] if t['alt'] == 'two' else g[1]))
+    return out
+
+
+def prop_repeat(case, res):
+    """The same call made twice in a row (and once more later) has the same outcome."""
+    name = case['mod']
+    m = core.number_modules()[name]
+    fns = [f for f in ['validate', 'is_valid', 'compact', 'format'] if hasattr(m, f)] + [g for mn, g, _k in c12.GETTERS if mn == name]
+    x = core.dec(case['x'])
+    for f in fns:
+        o1 = core.out(getattr(m, f), x)
+        o2 = core.out(getattr(m, f), x)
+        res.evals += 2
+        if o1 != o2:
+            res.violation('repeat|%s.%s|second-call-differs' % (name, f), 'repeat', {'mod': name, 'x': case['x']},
+                          {'first': [str(t)[:80] for t in o1], 'second': [str(t)[:80] for t in o2]})
+            return None
+        if f == 'validate':
+            first = o1
+    return first if 'validate' in fns else None
+
+
+def shard_repeat(a):
+    res = core.Result()
+    name = a['mod']
+    xs = gen.pool(name)[:60] + gen.near_misses(name)[:20] + gen.edge_pool(name)[:150] + completed_mutants(name)
+    seen = set()
+    firsts = []
+    for x in xs:
+        if x in seen:
+            continue
+        seen.add(x)
+        res.nt('repeat', name, x)
+        o = prop_repeat({'mod': name, 'x': core.enc(x)}, res)
+        if o is not None and len(firsts) < 400:
+            firsts.append((x, o))
+    res.hist['repeat:inputs'] += len(seen)
+    # ... and once more after all the other inputs of the module went through
+    m = core.number_modules()[name]
+    for x, o in firsts:
+        o3 = core.out(m.validate, x)
+        res.evals += 1
+        if o3 != o:
+            res.violation('repeat|%s.validate|later-call-differs' % name, 'repeat', {'mod': name, 'x': core.enc(x)},
+                          {'first': [str(t)[:80] for t in o], 'later': [str(t)[:80] for t in o3]})
+            break
+    if len(res.samples) < 1 and firsts:
+        res.sample({'repeat': name, 'inputs': len(seen), 'example': firsts[0][0]})
+    return res
+
+
+SUBS = {'hist': prop_hist, 'threads': prop_threads, 'repeat': prop_repeat}
 
 
 def run(ctx):
     core.number_modules()
     res = core.Result()
+    # (0) in-process: every call repeated at once and again later (a cache that remembers a failed lookup, a table that is
+    # consumed by the first call); inputs include numbers with a right check digit that are invalid for another reason
+    res.merge(core.run_shards(shard_repeat, [{'shard': 'repeat:' + n, 'mod': n} for n in core.number_modules()]))
     k = ctx.q(700, 6000)
     pool = build_pool(ctx.seed, k)
     tp = ThreadPool(core.NPROC)
